@@ -44,10 +44,10 @@
 extern "C" {
 #endif
 
-#define AVTP_SENSOR_HEADER_LEN         (1 * AVTP_QUADLET_SIZE)
+#define AVTP_SENSOR_BRIEF_HEADER_LEN         (1 * AVTP_QUADLET_SIZE)
 
 typedef struct {
-    uint8_t header[AVTP_SENSOR_HEADER_LEN];
+    uint8_t header[AVTP_SENSOR_BRIEF_HEADER_LEN];
     uint8_t payload[0];
 } Avtp_SensorBrief_t;
 
@@ -61,7 +61,7 @@ typedef enum {
     AVTP_SENSOR_BRIEF_FIELD_SZ,
     AVTP_SENSOR_BRIEF_FIELD_SENSOR_GROUP,        
     /* Count number of fields for bound checks */
-    AVTP_SENSOR_FIELD_MAX
+    AVTP_SENSOR_BRIEF_FIELD_MAX
 } Avtp_SensorBriefFields_t;
 
 /**
